@@ -1055,6 +1055,26 @@ def insert_loops(body, loops, where):
         if x.group(1) == "for" and not re.match(r"for\s+[\w\(\&_]", body[x.start():x.start() + 12]):
             continue
         locs.append(x)
+    # a loop spec with `header = "<text>"` instead of `index` applies to EVERY loop whose header (keyword up to the body's brace) contains that
+    # text (whitespace-insensitive): for the copies a beta-reduced closure leaves behind, however many calls there are; at least one must match
+    expanded = []
+    for lp in loops:
+        if "header" in lp:
+            want = norm_ws(lp["header"]).replace(" ", "")
+            idxs = []
+            for i, x in enumerate(locs):
+                kb = body.find("{", x.end())
+                if want in norm_ws(body[x.start():kb if kb > 0 else x.end() + 200]).replace(" ", ""):
+                    idxs.append(i)
+            if not idxs:
+                raise AnchorLost("%s: no loop with header containing `%s`" % (where, lp["header"]))
+            for i in idxs:
+                q = dict(lp)
+                q["index"] = i
+                expanded.append(q)
+        else:
+            expanded.append(lp)
+    loops = expanded
     for lp in sorted(loops, key=lambda l: -l["index"]):
         if lp["index"] >= len(locs):
             raise AnchorLost("%s: loop #%d not found (body has %d loops)" % (where, lp["index"], len(locs)))
@@ -1248,6 +1268,51 @@ def _closure_at(body, anchor, where):
     params = body[k + 1:e]
     return k, cl, params, body[e + 1:cl].strip()
 
+
+def r_inline_closure(body, spec, where):
+    """R-inlineclosure: `let [mut] NAME = |P: T| { BODY };` bound once and only CALLED (in statement / block-tail position) is beta-reduced:
+    the binding is dropped and every `NAME(ARG)` becomes `{ let P: T = ARG; <ghost head> BODY }` - the argument is evaluated first, then the
+    body, exactly as the call does; captured variables are simply the enclosing function's own variables.  (Verus has no closures capturing &mut.)"""
+    name = spec["name"]
+    m = code_mask(body)
+    rx = re.compile(r"\blet\s+(?:mut\s+)?%s\s*=\s*\|" % re.escape(name))
+    hits = [x for x in rx.finditer(body) if m[x.start()]]
+    if len(hits) != 1:
+        raise AnchorLost("%s: closure binding `%s` matched %d times (expected 1)" % (where, name, len(hits)))
+    x = hits[0]
+    pe = body.index("|", x.end())
+    param = body[x.end():pe].strip()
+    k = pe + 1
+    while body[k].isspace():
+        k += 1
+    if body[k] != "{":
+        raise Unsupported("R-inlineclosure: closure body is not a block")
+    be = match_close(body, m, k)
+    cbody = body[k:be + 1]
+    e = be + 1
+    while body[e].isspace():
+        e += 1
+    if body[e] != ";":
+        raise Unsupported("R-inlineclosure: binding does not end with `;`")
+    body = body[:x.start()] + "/* closure %s inlined at its calls */" % name + body[e + 1:]
+    n = 0
+    while True:
+        m = code_mask(body)
+        c = None
+        for y in re.finditer(r"\b%s\s*\(" % re.escape(name), body):
+            if m[y.start()]:
+                c = y
+                break
+        if c is None:
+            break
+        ce = match_close(body, m, c.end() - 1)
+        arg = body[c.end():ce]
+        body = body[:c.start()] + "{ let %s = %s; %s %s %s }" % (param, arg.strip(), spec.get("head_raw", ""), cbody, spec.get("tail_raw", "")) + body[ce + 1:]
+        n += 1
+    if n == 0:
+        raise AnchorLost("%s: closure `%s` is never called" % (where, name))
+    return body, [("R-inlineclosure", "let %s = |%s| {..}; %d calls" % (name, param, n), "{ let %s = ARG; {..} } at each call" % param)]
+
 def emit_fn(f, udir, unit_props, recs, log_global):
     """returns (emit_impl_header, text) for one [[fn]] entry."""
     if "from_unit" in f:
@@ -1388,6 +1453,9 @@ def emit_fn(f, udir, unit_props, recs, log_global):
         text = "#[verifier::external_body]\n" + splice_sig(sig, f.get("ret", "r"), f.get("requires", []), f.get("ensures", []), f.get("sig_extra")) + "{ unimplemented!() }\n"
     else:
         # order: textual substitutions first (they anchor on the original text), then general rules
+        for ic in f.get("inline_closures", []):
+            body, l = r_inline_closure(body, ic, where)
+            log += l
         if f.get("subst"):
             body, l = r_subst(body, f["subst"], where)
             log += l
